@@ -51,11 +51,24 @@ def run_shard(mod, tier, seed, i, n, partial_out=None, work=None):
         n_ex = mod.N[tier]
         if isinstance(n_ex, (list, tuple)):
             n_ex = n_ex[0]
-        run.seed = shard_seed(seed, i) if n > 1 else seed
-        strat = mod.strategy(tier)
         budget = getattr(mod, 'TIME_BUDGET', {}).get(tier)
-        core.hypothesis_search(run, strat, execute, triggers=triggers, max_examples=n_ex,
-                               shrink_budget_s=45 if tier == 'quick' else 240, time_budget_s=budget)
+        sb = 45 if tier == 'quick' else 240
+        if hasattr(mod, 'strata'):
+            allst = mod.strata(tier)
+            mine = allst[i::n]
+            each = max(4, n_ex // max(1, len(mine)))
+            for j, (name, strat) in enumerate(mine):
+                run.seed = shard_seed(seed, i) * 131 + j
+                run.classes['stratum:' + name] += 0
+                core.hypothesis_search(run, strat, execute, triggers=triggers, max_examples=each,
+                                       shrink_budget_s=sb, time_budget_s=budget)
+                if run.violations:
+                    break
+        else:
+            run.seed = shard_seed(seed, i) if n > 1 else seed
+            strat = mod.strategy(tier)
+            core.hypothesis_search(run, strat, execute, triggers=triggers, max_examples=n_ex,
+                                   shrink_budget_s=sb, time_budget_s=budget)
         run.seed = seed
     if not run.violations and hasattr(mod, 'extra_passes'):
         mod.extra_passes(run, tier, i, n)
